@@ -1256,6 +1256,12 @@ int _vnadata_load_touchstone(vnadata_internal_t *vdip, FILE *fp,
 		    tps.tps_filename, tps.tps_line);
 		goto out;
 	    }
+	    if (reference != NULL) {
+		_vnadata_error(vdip, VNAERR_SYNTAX, "%s (line %d) error: "
+			"[Number of Ports] must appear before [Reference]",
+		    tps.tps_filename, tps.tps_line);
+		goto out;
+	    }
 	    tps.tps_ports = tps.u.tps_int;
 	    if (tps.tps_ports != 2 &&
 		    (tps.tps_parameter_type == VPT_G ||
